@@ -13,6 +13,7 @@ import (
 	"verif/lib/ev"
 	"verif/lib/exact"
 	"verif/lib/mc"
+	"verif/lib/refgeom"
 )
 
 const tol = 1e-9
@@ -126,6 +127,20 @@ func checkOne(c *mc.Ctx, box orb.Bound, in orb.LineString, open bool) {
 	desc := func() string { return fmt.Sprintf("box=%v open=%v line=%v got=%v", box, open, in, got) }
 	if !sameBits(before, bits(in)) {
 		c.Failf("input-modified", "the input line was modified | %s", desc())
+	}
+	// the same line with spare capacity behind it must clip to the same pieces, and nothing may be written there
+	sp := orb.LineString(refgeom.Spare(in))
+	var got2 orb.MultiLineString
+	if open {
+		got2 = clip.LineString(box, sp, clip.OpenBound(true))
+	} else {
+		got2 = clip.LineString(box, sp)
+	}
+	if !got2.Equal(got) && !(len(got2) == 0 && len(got) == 0) {
+		c.Failf("layout-dependent", "the line with spare capacity clips to %v | %s", got2, desc())
+	}
+	if full := sp[:cap(sp)]; len(full) > len(in) && (full[len(in)] != orb.Point{7e77, -7e77}) {
+		c.Failf("input-modified", "clipping wrote into the spare capacity behind the input line | %s", desc())
 	}
 	want := reference(tb, in, open)
 	// flatten the output into its non-degenerate segments, remembering piece indices
